@@ -13,4 +13,6 @@ mod c03_root;
 #[cfg(kani)]
 mod c03_encoding;
 #[cfg(kani)]
-mod c03_scratch;
+mod c03_archive;
+#[cfg(kani)]
+mod c03_enc_builder;
